@@ -32,7 +32,7 @@ claimed = {c["property_id"] for c in checks}
 na = [{"property_id": p, "reason": NA.get(p, "check not built yet in this round (see DESIGN.md §7 build order); planned, not claimed")} for p in props if p not in claimed]
 m = {
     "version": 1,
-    "setup_cmd": f"cd /verif && /venv/bin/pip install -q --no-index --find-links /opt/veriftools/wheels --upgrade --target /verif/.deps hypothesis && {ENV} {PY} -m vf.selftest",
+    "setup_cmd": f"cd /verif && /venv/bin/pip install -q --no-index --find-links /opt/veriftools/wheels --upgrade --target /verif/.deps hypothesis atheris && {ENV} {PY} -m vf.selftest",
     "hooks": {
         "guard": "SOLVOR_VERIF",
         "enable": "checks import a shadow copy of /repo/solvor (vf/shadow.py) with SOLVOR_VERIF=1 in the environment; the hook in solvor/sat.py is inert unless a sink is registered",
